@@ -652,7 +652,7 @@ def main(argv):
         extra_sources=['Alpaqa/Model/C18.lean', 'Alpaqa/Gen/C18.lean', 'Driver/C18.lean'],
         harness_name='c18', harness_sources=sources, harness_flags=flags,
         gen_ops=gen_ops, monitor=monitor, nontrivial=nontrivial,
-        n_quick=1, n_thorough=60, extra_stage=extra_stage, search_factor=2,
+        n_quick=1, n_thorough=240, extra_stage=extra_stage, search_factor=2,
         trusted_base=[
             'Lean 4.33 kernel (axioms: propext, Classical.choice, Quot.sound); Mathlib only in Props/C18.lean',
             'gen/gen_c18.py (regex/brace-matching translator: structs.ipp tables, struct and enum '
